@@ -799,7 +799,7 @@ func chainFields(e PExpr) []string {
 
 func ruleC06Order(w *World, r *Report) {
 	r.rule("C06/R1", "the field that yields pos at a site is produced by the first event of the production for this node: no other present field's event precedes it, apart from fields listed earlier in the pos chain", 125)
-	r.rule("C06/R2", "end chains: (a) alternatives are listed in the reverse order of their parse events; (b) every field whose parse event lies after the event of the last (mandatory) alternative is part of the chain", 125)
+	r.rule("C06/R2", "end chains: (a) alternatives are listed in the reverse order of their parse events; (b) every field whose parse event lies after the event of the last (mandatory) alternative is part of the chain; (c) a field parsed after the chain's always-present fallback is in the chain unless a preferred alternative parsed after it is present whenever it is", 125)
 	cat := w.Catalog()
 	type agg struct {
 		bad   []string
@@ -900,6 +900,42 @@ func ruleC06Order(w *World, r *Report) {
 				eg := w.fieldEvents(si, g)
 				if len(last) > 0 && allBefore(last, eg) {
 					a2.bad = append(a2.bad, fmt.Sprintf("%s: %s is parsed after every field of end = %s, but is not part of the chain: End() is too small when it is present", siteName, g, pString(si.ns.EndExpr)))
+				}
+			}
+		}
+		// (c) a field outside the chain that is parsed after the chain's fallback (the first alternative that is always
+		// present): End() reaches it only through a preferred alternative parsed after it, and only if that alternative is
+		// there whenever the field is. A preferred alternative that is the result of its own call (an optional clause the
+		// callee decides on from the token in front of it) is absent for some input on which the field is present.
+		if si.ns.Name != "CreateTable" {
+			fb := -1
+			for i, f := range echain {
+				if w.fieldPresent(si, f) && !w.fieldMayBeAbsent(si, f) {
+					fb = i
+					break
+				}
+			}
+			for _, g := range all {
+				if fb < 0 || inE[g] || !w.fieldPresent(si, g) {
+					continue
+				}
+				eg := w.fieldEvents(si, g)
+				if !allBefore(w.fieldEvents(si, echain[fb]), eg) {
+					continue
+				}
+				covered, indep := false, ""
+				for _, f := range echain[:fb] {
+					if !w.fieldPresent(si, f) || !anyBefore(eg, w.fieldEvents(si, f)) {
+						continue
+					}
+					if w.fieldMayBeAbsent(si, f) && ownOptionalCall(si.val[f], si.val[g]) {
+						indep = f
+						continue
+					}
+					covered = true
+				}
+				if !covered && indep != "" {
+					a2.bad = append(a2.bad, fmt.Sprintf("%s: %s is parsed after %s, the fallback of end = %s, and is not part of the chain; the alternative parsed after it (%s) is an optional clause of its own: End() stops before %s when %s is absent", siteName, g, echain[fb], pString(si.ns.EndExpr), indep, g, indep))
 				}
 			}
 		}
@@ -1273,4 +1309,33 @@ func allocInCycleOf(al *ssa.Alloc, ev []event) bool {
 		}
 	}
 	return false
+}
+
+// ownOptionalCall: v is the result of one call (possibly converted) that does not take g's value as an argument: whether
+// it is nil is decided by the callee, from the tokens in front of it, after g has been parsed.
+func ownOptionalCall(v, g ssa.Value) bool {
+	for {
+		switch x := v.(type) {
+		case *ssa.MakeInterface:
+			v = x.X
+			continue
+		case *ssa.ChangeInterface:
+			v = x.X
+			continue
+		case *ssa.ChangeType:
+			v = x.X
+			continue
+		case *ssa.Call:
+			if x.Call.IsInvoke() {
+				return false
+			}
+			for _, a := range x.Call.Args {
+				if a == g {
+					return false
+				}
+			}
+			return true
+		}
+		return false
+	}
 }
